@@ -121,6 +121,19 @@ CLAIMS["C01"] = (
     "covered here by the round-trip oracle only; stdlib print/parse round trips are interpreter facts. Two defects "
     "repaired (Literal with enum/bytes next to 0/1; timedelta).", "DESIGN.md section 5 C01", TECH)
 
+CLAIMS["C18"] = (
+    "Proof: 7 theorems (Props/C18.v) over Model/Enum.v with flags as N bit sets: flag_by_member_names dumper loop + loader "
+    "OR round-trips every value whose bits are covered by admitted cases, for both allow_compound settings incl. the "
+    "reversed visiting order (bit-level reasoning with N.testbit), hence every OR of admitted members; the dumper names only "
+    "members inside the value; flag_by_exact_value accepts exactly 0..mask and with no skipped bit every such value is a "
+    "combination; enum_by_exact_value's table lookup inverts member -> value for pairwise != values; refutation witness for "
+    "an uncovered bit. Tied to the code by the flag-list dumper evaluated in the model for every value of 8 flag classes and "
+    "by a direct oracle: 7 enum + 8 flag classes x 5 providers x option cube, every member and every combination dumped and "
+    "loaded, ~55 candidate data must be rejected with LoadError unless == a representation, creation must succeed.",
+    "Trusted: Coq kernel, renderers; enum lookup by Python == (True / 1.0 load as the member valued 1) is Enum's own rule and "
+    "counted as a representation; name_style conversion is C03's model. One defect repaired (log2(0)); one known finding "
+    "(allow_compound=False with bits only inside compound members).", "DESIGN.md section 5 C18", TECH)
+
 NOT_YET = "check not built yet in this session (DESIGN.md section 10 build order); not claimed until its model, theorems and correspondence exist"
 
 
